@@ -39,7 +39,9 @@ if __name__ == '__main__' and '--worker' in sys.argv:  # -----------------------
                 order = [p.value for p in prov.BANK[iface].paths]
                 try:
                     cls = iface[ref]
-                    out.append(['ok', cls.__module__, cls.__qualname__, bool(inspect.isabstract(cls)), order])
+                    ext = inspect.isabstract(cls) or any(isinstance(v, type) and inspect.isabstract(v)
+                                                         for v in vars(cls).values())
+                    out.append(['ok', cls.__module__, cls.__qualname__, bool(ext), order])
                 except Exception as e:  # pylint: disable=broad-except
                     out.append(['err', type(e).__name__, order])
         return out
@@ -400,13 +402,19 @@ class Scenario:
                (IFC, {'name': 'Mid', 'base': 'Base', 'alias': None, 'impl': False, 'paths': self.mid_paths}, True,
                 [(IFC, 'Base')])]
         known = {'Base': out[0], 'Mid': out[1]}
+        self.flags = {(IFC, 'Base'): (True, False), (IFC, 'Mid'): (True, False)}  # (inspect.isabstract, abstract inner)
         for pkg, pd in self.packages.items():
             for sub, clss in pd['mods'].items():
                 mod = f'{pkg}.{sub}' if sub else pkg
                 local = dict(known)
                 for c in clss:
                     pmod, pc, pabs, panc = local[c['base']]
-                    abstract = pabs and not c['impl']
+                    # inspect.isabstract: `run` inherited unimplemented, an abstract property of its own, or an abstract
+                    # method of a mixin; extended: an abstract inner class among the class' own attributes
+                    unimpl = (pabs and not c['impl']) or c.get('shape') in ('prop', 'mixin')
+                    inner = c.get('shape') == 'inner'
+                    self.flags[(mod, c['name'])] = (bool(unimpl), inner)
+                    abstract = bool(unimpl or inner)
                     entry = (mod, c, abstract, [(pmod, pc['name'])] + panc)
                     out.append(entry)
                     local[c['name']] = entry
@@ -431,10 +439,19 @@ class Scenario:
         for pkg, pd in self.packages.items():
             os.makedirs(os.path.join(root, pkg), exist_ok=True)
             def render(clss):
-                src = f'from {IFC} import Base, Mid\n\n'
+                src = f'import abc\nfrom {IFC} import Base, Mid\n\n'
+                src += ('class Extra_(abc.ABC):\n    @abc.abstractmethod\n    def extra(self):\n        """more"""\n\n')
                 for c in clss:
-                    src += f"class {c['name']}({c['base']}{kw(c)}):\n"
-                    src += '    def run(self):\n        return None\n\n' if c['impl'] else '    pass\n\n'
+                    shape = c.get('shape')
+                    bases = f"Extra_, {c['base']}" if shape == 'mixin' else c['base']
+                    src += f"class {c['name']}({bases}{kw(c)}):\n"
+                    body = '    def run(self):\n        return None\n' if c['impl'] else ''
+                    if shape == 'inner':
+                        body += ('    class Part(abc.ABC):\n        @abc.abstractmethod\n        def work(self):\n'
+                                 '            """component"""\n')
+                    if shape == 'prop':
+                        body += '    @property\n    @abc.abstractmethod\n    def level(self):\n        """level"""\n'
+                    src += (body or '    pass\n') + '\n'
                 return src
 
             init = render(pd['mods'].get('', []))
@@ -478,8 +495,9 @@ def scenario_world(sc: Scenario, names: Names):
             if sub:
                 mods[f'{pkg}.{sub}'] = {'subs': [], 'classes': []}
     for mod, c, abstract, anc in sc.classes():
+        unimpl, inner = sc.flags[(mod, c['name'])]
         mods[mod]['classes'].append([names.mod(mod), names.n(c['name']), names.n(c['alias']) if c.get('alias') else None,
-                                     abstract, [[names.mod(m), names.n(q)] for m, q in anc],
+                                     unimpl, inner, [[names.mod(m), names.n(q)] for m, q in anc],
                                      [names.mod(p) for p in c.get('paths') or []]])
     return [[names.mod(m), [names.n(s) for s in d['subs']], d['classes']] for m, d in mods.items()]
 
@@ -512,6 +530,12 @@ class ScenGen:
         for i in range(r.choice([1, 1, 2, 3])):
             base = r.choice(['Base', 'Mid'] + local_abstract + local_concrete)
             impl = r.random() < 0.7 or (i == 0 and want_alias is not None)
+            if not (i == 0 and want_alias) and r.random() < 0.25:
+                # abstract although every method is there: an abstract inner class (only the module's own isabstract
+                # sees it), an abstract property, or an abstract method of a mixin. Leaves only (never used as a base).
+                out.append({'name': names[i], 'base': base, 'alias': None, 'impl': True,
+                            'shape': r.choice(['inner', 'inner', 'prop', 'mixin'])})
+                continue
             concrete = impl or base in local_concrete
             alias = None
             if concrete:
@@ -522,6 +546,14 @@ class ScenGen:
             out.append({'name': names[i], 'base': base, 'alias': alias, 'impl': impl})
             (local_concrete if concrete else local_abstract).append(names[i])
         return out
+
+    @staticmethod
+    def abstract_aliased(r):
+        shape = r.choice([None, 'inner', 'prop', 'mixin'])
+        c = {'name': 'Abs', 'base': r.choice(['Base', 'Mid']), 'alias': 'abs', 'impl': shape is not None}
+        if shape:
+            c['shape'] = shape
+        return c
 
     def make(self, kind: str) -> Scenario:
         """kind: clean-explicit | collision-explicit | abstract-alias | clean-lazy | collision-lazy | preload"""
@@ -570,7 +602,7 @@ class ScenGen:
             m = r.choice(modules)
             pkg, sub = m.split('.')
             packages[pkg]['mods'][sub].insert(r.randint(0, len(packages[pkg]['mods'][sub])),
-                                              {'name': 'Abs', 'base': r.choice(['Base', 'Mid']), 'alias': 'abs', 'impl': False})
+                                              self.abstract_aliased(r))
         lazy = kind.endswith('lazy') or kind == 'preload'
         base_paths = list(pkgs) if (lazy or r.random() < 0.5) else []
         if kind == 'preload':
@@ -590,19 +622,46 @@ class ScenGen:
                 qs.append(('Base', c['alias']))
                 if r.random() < 0.5:
                     qs.append(('Mid', c['alias']))
-            if r.random() < 0.7 or kind == 'collision-lazy':
+            if r.random() < 0.7 or kind == 'collision-lazy' or abstract:
                 qs.append((r.choice(['Base', 'Base', 'Mid']), f"{mod}:{c['name']}"))
         qs = dedupe(qs)
         r.shuffle(qs)
+        # every abstract class is looked up by its qualified name (kept when the list is cut below)
+        absq = {f"{mod}:{c['name']}" for mod, c, abstract, _ in sc.classes() if abstract and mod != IFC}
+        qs = [q for q in qs if q[1] in absq][:4] + [q for q in qs if q[1] not in absq]
         if kind == 'preload':
             qs = []
         if kind == 'collision-lazy':
             # the colliding alias first (before anything else triggers imports), then the rest
             qs = [('Base', 'dup')] + [q for q in qs if q != ('Base', 'dup')]
-        sc.queries = qs[:7] + [('Base', 'nosuch'), ('Base', 'pk0.foo:Nosuch'), ('Mid', 'nomod:Impl')]
+        sc.queries = qs[:9] + [('Base', 'nosuch'), ('Base', 'pk0.foo:Nosuch'), ('Mid', 'nomod:Impl')]
         if kind != 'preload':
             sc.queries += self.near_misses(sc)
         return sc
+
+    def variants(self, sc: Scenario):
+        """The same world and imports with other lookup sequences: misses before hits, and a shuffle with repeated
+        lookups (the generated order has the hits first)."""
+        r = self.rng
+        carried = set()
+        for mod, c, _, _ in sc.classes():
+            carried.add(f"{mod}:{c['name']}")
+            if c.get('alias'):
+                carried.add(c['alias'])
+        qs = list(sc.queries)
+        hits = [q for q in qs if q[1] in carried]
+        misses = [q for q in qs if q[1] not in carried]
+        r.shuffle(misses)
+        r.shuffle(hits)
+        mixed = list(qs)
+        r.shuffle(mixed)
+        again = r.sample(qs, min(5, len(qs)))
+        out = [sc]
+        for queries, tag in ((misses + hits, 'miss-first'), (mixed + again, 'shuffled-repeated')):
+            v = Scenario(sc.base_paths, sc.mid_paths, sc.packages, sc.imports, queries, sc.kind)
+            v.sequence = tag
+            out.append(v)
+        return out
 
     def near_misses(self, sc: Scenario):
         """Unknown references that resemble something that exists: class names used as aliases, aliases in another
@@ -664,13 +723,15 @@ class C20(fw.Check):
             'missing file) and defaults + read; distinct by (sources, via), non-trivial when >= 2 sources share a key. '
             'Sections: [RUNNER]/[REGISTRY] groups with default / provider / params resolved through setup.Runner/Registry. '
             'Providers: generated packages (1..3 packages, 1..3 modules each, 1..3 classes per module deriving from the '
-            'abstract interface, an abstract intermediate or an earlier class; aliases, qualified names, __all__ lists '
+            'abstract interface, an abstract intermediate or an earlier class; leaf classes abstract through an abstract inner '
+            'class / abstract property / mixin; aliases, qualified names, __all__ lists '
             'with ghosts) of kinds clean-explicit, collision-explicit, abstract-alias, clean-lazy (half with 1..3 modules '
             'pre-imported explicitly), collision-lazy, preload; every permutation (quick: <= 6 sampled) of the explicit '
             'imports x PYTHONHASHSEEDs, each in a freshly forked process of an interpreter that has only forml imported; '
             'every alias / qualified name, three fixed unknown references and up to three near-miss unknown references '
             '(class name as alias, alias in another case / truncated / extended, module name without that alias, right '
-            'module wrong class, package for module) resolved in sequence through Base[...] and Mid[...]. A provider case '
+            'module wrong class, package for module) resolved through Base[...] and Mid[...] in three sequences per world '
+            '(hits first, misses first, shuffled with repeats). A provider case '
             'is distinct by (scenario, import order, seed).')
     TRUSTED = [
         'tomli (TOML reader), the minimal TOML writer of the harness, MappingProxyType wrappers',
@@ -1003,7 +1064,9 @@ class C20(fw.Check):
                         and (IFC, iface) in ancestors[carriers[0]]):
                     cmod = carriers[0][0]
                     pkg, _, sub = cmod.partition('.')
-                    if cmod in order or ':' in ref or (sub == ref and pkg in search[iface]):
+                    allv = sc.packages.get(pkg, {}).get('all')
+                    if (cmod in order or ':' in ref or (sub == ref and pkg in search[iface])
+                            or (pkg in search[iface] and allv is not None and sub in allv)):
                         self.violate(f'{iface}[{ref!r}] raised {r[1]} although {cmod}:{carriers[0][1]} carries the reference '
                                      f'and is {"imported" if cmod in order else "discoverable"}',
                                      dict(witness, order=order, seeds=[seed]), 'registered-provider-not-found')
@@ -1039,7 +1102,7 @@ class C20(fw.Check):
         gen = ScenGen(self.rng)
         kinds = kinds or ['clean-explicit', 'clean-explicit', 'clean-explicit', 'collision-explicit', 'abstract-alias',
                           'clean-lazy', 'clean-lazy', 'clean-lazy', 'collision-lazy', 'preload']
-        scenarios = [gen.make(kinds[i % len(kinds)]) for i in range(nscen)]
+        scenarios = [v for i in range(nscen) for v in gen.variants(gen.make(kinds[i % len(kinds)]))]
         root = tempfile.mkdtemp(prefix='verif-c20-bank-')
         try:
             runs = self._run_scenarios(scenarios, seeds, root)
@@ -1058,7 +1121,7 @@ class C20(fw.Check):
             mod = self._model_canon(ans)
             gets = [r for op, r in zip(ops, results) if op[0] == 'get']
             self.case(('bank', json.dumps(sc.to_json(), sort_keys=True), tuple(order), seed),
-                      f'bank {sc.kind} imports={len(order)}', nontrivial=any(r[0] == 'ok' for r in gets),
+                      f'bank {sc.kind} imports={len(order)} {getattr(sc, "sequence", "hits-first")}', nontrivial=any(r[0] == 'ok' for r in gets),
                       sample={'kind': sc.kind, 'order': order, 'seed': seed, 'queries': sc.queries[:4],
                               'results': [r[:3] for r in gets[:4]]} if i < 2 and seed == seeds[0] and len(self.samples) < 8 else None)
             if impl != mod:
@@ -1072,7 +1135,7 @@ class C20(fw.Check):
 
     def correspondence(self):
         self._config()
-        self._bank(self.n(30, 160), self.SEEDS_QUICK if self.quick else self.SEEDS_THOROUGH)
+        self._bank(self.n(20, 80), self.SEEDS_QUICK if self.quick else self.SEEDS_THOROUGH)
 
     def search(self, reason):
         # widen: conf stacks oracle-only around the diverging shapes, more provider scenarios of every kind
@@ -1097,7 +1160,7 @@ class C20(fw.Check):
         finally:
             shutil.rmtree(tmp, ignore_errors=True)
         if (any(d.what.startswith('provider') for d in self.divergences) or not self.divergences) and 'bank' not in have:
-            self._bank(self.n(40, 120), self.SEEDS_THOROUGH)
+            self._bank(self.n(20, 60), self.SEEDS_THOROUGH)
         self.notes.append(f'failing-input search ({reason}): widened config stacks and provider scenarios, '
                           f'{len(self.violations) - before} violating input(s) found')
 
